@@ -355,6 +355,16 @@ def judge(ctx, n, q, req, ans, model_ans, stats):
         if not ans.get("hang"):
             ctx.stat("slow-timeouts")
             return None
+        mv = re.search(r"movable=(\d+)", model_ans)
+        if mv and int(mv.group(1)) > 0:
+            # the log stood still for 300 ms, but in the state it describes some goroutine can take its next
+            # step: a starved process on a loaded machine, not a hang of the protocol
+            ctx.stat("stalled-but-movable")
+            if req.get("timeout_ms", 0) < 6000:
+                stats.setdefault("stalled", []).append((n, q, req))
+                return None
+            return ("hang-stalled", inp, "no record for 300 ms, twice, the second time with a 6 s budget, although the "
+                    "model state allows a step: " + model_ans[:300], False)
         kind, detail = classify_hang(model_ans, n, q)
         if ntasks <= q:
             kind = "hang-within-capacity"
@@ -513,6 +523,14 @@ def run(ctx):
             new = ctx.violation(kind, inp, detail, no_input=no_input)
             if new and kind in ("trace-rejected", "property-fails"):
                 corr_ok = False
+    # runs that stood still in a state where the model can move: once more, alone, with a long budget
+    for (n, q, req) in stats.get("stalled", [])[:5]:
+        r2 = dict(req, timeout_ms=6000, id=req["id"] + "-again")
+        a2 = prun([r2], n, q)[0]
+        m2 = vlib.run_model(["pr\ttrace\t%d\t%d\t%s" % (n, q, a2.get("events", ""))])[0]
+        j = judge(ctx, n, q, r2, a2, m2, stats)
+        if j:
+            ctx.violation(j[0], j[1], j[2], no_input=j[3])
     ctx.extra["traces_validated_against_impl"] = stats["validated"]
     ctx.extra["configurations"] = ["%dx%d" % c for c in configs]
     ctx.obligation("trace validation: every recorded H2 event log is a run of stepB (%d logs, %d configurations)"
